@@ -3,9 +3,10 @@
 package c06
 
 import (
-	"os"
 	"fmt"
 	"math/big"
+	"math/rand"
+	"os"
 	"sort"
 	"strings"
 	"testing"
@@ -187,6 +188,11 @@ func runRegistry(r *core.Run, cid string, K int) {
 		if r.Violations() > 0 && !r.Replaying() {
 			return
 		}
+	}
+	// an acknowledgement that names a relayer address which this chain knows only under ANOTHER counterparty
+	w.ackNamingForeignRegistration(rng)
+	if r.Violations() > 0 && !r.Replaying() {
+		return
 	}
 	// every registry case closes with one hand-over of each kind on one chain (update from the TSS account, upgrade proposal)
 	n := s.W.Nodes[rng.Intn(len(s.W.Nodes))]
@@ -390,9 +396,71 @@ func (w *worldA) attemptTM(n, x *core.Node, signer *core.Account, kind string) {
 		}
 		o := s.Deliver(n, signer, "ack "+p.Key(), msg)
 		s.NoteAck(p, o)
-		// the statement restricts acknowledgement signers only for TSS counterparties
-		w.judge(n, signer, x.Name, kind, o, 0, "")
+		// the statement restricts acknowledgement signers only for TSS counterparties; but the fee of the packet goes to the
+		// local account whose registration FOR THAT CHAIN carries the address the acknowledgement names - an address that is
+		// registered on this chain only for other counterparties confers nothing here
+		exp, extra := 0, ""
+		var a packettypes.Acknowledgement
+		if a.ABIDecode(p.AckWritten) == nil && a.Relayer != "" {
+			here, elsewhere := false, false
+			for _, e := range w.model[n.Name] {
+				for i, c := range e.chains {
+					if strings.EqualFold(e.addrs[i], a.Relayer) {
+						if c == x.Name {
+							here = true
+						} else {
+							elsewhere = true
+						}
+					}
+				}
+			}
+			if !here && elsewhere {
+				exp, extra = -1, "/named-relayer-registered-for-other-chains-only"
+				w.r.Count("attempts/ack-naming-a-relayer-registered-for-other-chains-only", 1)
+			}
+		}
+		w.judge(n, signer, x.Name, kind, o, exp, extra)
 	}
+}
+
+// ackNamingForeignRegistration: on x the delivering relayer is registered for n with counterparty address Z; on n the
+// address Z is registered too, but only for a chain that is not x. The acknowledgement of a packet n -> x names Z.
+func (w *worldA) ackNamingForeignRegistration(rng *rand.Rand) {
+	s := w.s
+	n := s.W.Nodes[rng.Intn(len(s.W.Nodes))]
+	var others []*core.Node
+	for _, o := range s.W.Nodes {
+		if o != n {
+			others = append(others, o)
+		}
+	}
+	x := others[rng.Intn(len(others))]
+	z := core.NewAccount(fmt.Sprintf("c06-foreign-%s-%d", w.cid, len(s.Log))).Bech32()
+	reg := func(on *core.Node, who *core.Account, chains, addrs []string) bool {
+		p := clienttypes.NewRegisterRelayerProposal("t", "d", who.Bech32(), chains, addrs)
+		cctx, write := on.Ctx().CacheContext()
+		if p.ValidateBasic() != nil || xibcclient.NewClientProposalHandler(on.App.XIBCKeeper.ClientKeeper)(cctx, p) != nil {
+			return false
+		}
+		write()
+		w.model[on.Name][who.Bech32()] = regEntry{chains, addrs}
+		s.W.Roll(on)
+		return true
+	}
+	holder := w.pool[rng.Intn(len(w.pool))]
+	foreign := "ghost-chain"
+	if len(others) > 1 && rng.Intn(2) == 0 {
+		for _, o := range others {
+			if o != x {
+				foreign = o.Name
+			}
+		}
+	}
+	if !reg(x, w.infra, []string{n.Name}, []string{z}) || !reg(n, holder, []string{foreign}, []string{z}) {
+		w.r.Count("setup_failed", 1)
+		return
+	}
+	w.attemptTM(n, x, w.pool[rng.Intn(len(w.pool))], "ack")
 }
 
 // tssProof chooses what the (for TSS clients meaningless) proof field carries: an attacker controls it.
